@@ -57,7 +57,7 @@ fn main() {
 }
 
 /// contracts that run JIT evaluators in-process (`total` manages its own children)
-const JIT_IN_PROCESS: [&str; 11] = ["render_handle", "solver_bind", "shape_transform", "jit_point", "jit_bulk", "jit_interval", "jit_interval_valid", "jit_grad", "jit_trace", "simplify_sem", "reuse"];
+const JIT_IN_PROCESS: [&str; 12] = ["solver_linear", "render_handle", "solver_bind", "shape_transform", "jit_point", "jit_bulk", "jit_interval", "jit_interval_valid", "jit_grad", "jit_trace", "simplify_sem", "reuse"];
 
 fn guarded(contract: &str, rest: &[String]) -> serde_json::Value {
     let died = |what: String| {
@@ -112,6 +112,7 @@ pub fn run(contract: &str, thorough: bool, seed: u64) -> Report {
         "shape_bind" => c_shape::shape_bind(thorough),
         "shape_transform" => c_shape::shape_transform(thorough),
         "solver_bind" => c_solver::solver_bind(thorough),
+        "solver_linear" => c_solver::solver_linear(thorough),
         "shape_reuse" => c_shape::shape_reuse(thorough),
         "render_handle" => c_render::render_handle(thorough),
         "deriv_rules" => c_deriv::deriv_rules(thorough),
@@ -138,6 +139,7 @@ fn replay(v: &serde_json::Value) -> i32 {
         "shape_bind" => c_shape::replay(v),
         "shape_transform" => c_shape::replay_transform(v),
         "solver_bind" => c_solver::replay(v),
+        "solver_linear" => c_solver::replay_linear(v),
         "shape_reuse" => c_shape::replay_reuse(v),
         "render_handle" => c_render::replay(v),
         "deriv_rules" => c_deriv::replay(v),
